@@ -163,7 +163,19 @@ fn scenario_small(c: &mut Choices, o: &mut Outcome) {
 
 fn gen_string(c: &mut Choices) -> String {
   let n = c.pick(10);
-  (0..n).map(|i| (b'a' + ((c.byte() as usize + i) % 26) as u8) as char).collect()
+  // mostly letters; now and then a character that takes 2, 3 or 4 bytes in UTF-8 (the CDR length
+  // prefix counts bytes, not characters)
+  const WIDE: [char; 8] = ['é', 'ü', 'ß', 'Ω', '温', '度', '€', '😀'];
+  (0..n)
+    .map(|i| {
+      let b = c.byte() as usize;
+      if b >= 232 {
+        WIDE[(b - 232) % 8]
+      } else {
+        (b'a' + ((b + i) % 26) as u8) as char
+      }
+    })
+    .collect()
 }
 
 fn gen_nonempty_string(c: &mut Choices) -> String {
